@@ -7,7 +7,7 @@ HARNESS = os.path.join(VERIF, 'harness')
 DVERIF = os.path.join(HARNESS, 'target', 'release', 'dverif')
 
 # The committed tree carries these repairs; the specification models the repaired code (toggle off = pinned behaviour, used by selftest)
-FIXES = {'FixD1': True, 'FixD2': True, 'FixD3': True, 'FixD6': True}
+FIXES = {'FixD1': True, 'FixD2': True, 'FixD3': True, 'FixD5': True, 'FixD6': True}
 
 
 class ToolError(Exception):
